@@ -137,15 +137,27 @@ def getFunc (o : Oracles) (name : String) : Res Bool :=
 def objectKinds : List String := ["Func", "Var", "Const", "TypeName", "Label", "PkgName", "Builtin", "Nil"]
 def basicKinds : List String := ["integer", "unsigned", "float", "complex", "untyped", "numeric"]
 
-/-- first stage of most cases: `s := unwrapStringExpr(filter.Args[0])`, error when empty -/
-def stringArg0 (e : FE) : LRes String :=
+/-- which `Line` a located error of a leaf case carries: the filter node's (`l.errorf(filter.Line, …)` in
+`newFilter` itself) or its first argument's (the `unwrap…Expr(filter.Args[0])` helpers report at the line of
+the expression they are given) — they differ for a call that spans lines and for a helper's expansion -/
+inductive ErrAt | node | arg
+deriving Repr, DecidableEq
+
+def errLine (w : ErrAt) (e : FE) (argLine : Nat) : Nat :=
+  match w with
+  | .node => e.line
+  | .arg => argLine
+
+/-- first stage of most cases: `s := unwrapStringExpr(filter.Args[0])`, error when empty; answers the
+argument's line and the string -/
+def stringArg0 (e : FE) (emptyAt : ErrAt) : LRes (Nat × String) :=
   match argAt e.args 0 with
   | .panic p => .panic p
   | .ok a =>
     match unwrapString a with
     | .panic p => .panic p
-    | .ok "" => lerr e.line "expected a non-empty string argument"
-    | .ok s => lok s
+    | .ok "" => lerr (errLine emptyAt e a.line) "expected a non-empty string argument"
+    | .ok s => lok (a.line, s)
 
 /-- which check the `Args[0].Value.(string)` of IdenticalTo / Contains / Filter goes through -/
 inductive ArgCheck | identical | contains | filterFn
@@ -153,7 +165,7 @@ deriving Repr, DecidableEq
 
 /-- shape of a non-binary case of `newFilter` -/
 inductive LeafKind
-  | strArg (check : Oracles → String → Option String) (needVar : Bool)
+  | strArg (check : Oracles → String → Option (ErrAt × String)) (needVar : Bool) (emptyAt : ErrAt)
       -- `s := unwrapStringExpr(filter.Args[0])`, error when empty, then `check`, then (needVar) `filter.Value.(string)`
   | varOnly                                    -- constructor takes `filter.Value.(string)` only
   | noArgs                                     -- Deadcode
@@ -163,24 +175,24 @@ inductive LeafKind
   | unsupported
 
 def leafKind (op : Nat) : LeafKind :=
-  if op = fVarTextMatches then .strArg (fun o s => if o.textmatchOK s then none else some "compile regexp") true
-  else if op = fVarObjectIs then .strArg (fun _ s => if objectKinds.contains s then none else some "not a valid go/types object name") true
-  else if op = fRootNodeParentIs then .strArg (fun o s => if o.nodeTagOK s then none else some "not a valid go/ast type name") false
-  else if op = fVarNodeIs then .strArg (fun o s => if o.nodeTagOK s then none else some "not a valid go/ast type name") true
-  else if op = fRootSinkTypeIs then .strArg (fun o s => if o.typematchOK s then none else some "parse type expr") false
+  if op = fVarTextMatches then .strArg (fun o s => if o.textmatchOK s then none else some (.arg, "compile regexp")) true .arg
+  else if op = fVarObjectIs then .strArg (fun _ s => if objectKinds.contains s then none else some (.node, "not a valid go/types object name")) true .node
+  else if op = fRootNodeParentIs then .strArg (fun o s => if o.nodeTagOK s then none else some (.arg, "not a valid go/ast type name")) false .arg
+  else if op = fVarNodeIs then .strArg (fun o s => if o.nodeTagOK s then none else some (.arg, "not a valid go/ast type name")) true .arg
+  else if op = fRootSinkTypeIs then .strArg (fun o s => if o.typematchOK s then none else some (.node, "parse type expr")) false .node
   else if op = fVarTypeHasPointers then .varOnly
   else if op = fVarTypeOfKind ∨ op = fVarTypeUnderlyingOfKind then
-    .strArg (fun _ s => if s = "signed" ∨ s = "int" ∨ s = "uint" ∨ basicKinds.contains s then none else some "unknown kind") true
+    .strArg (fun _ s => if s = "signed" ∨ s = "int" ∨ s = "uint" ∨ basicKinds.contains s then none else some (.node, "unknown kind")) true .node
   else if op = fVarTypeIdenticalTo then .varAndArgValue .identical
   else if op = fVarTypeIs ∨ op = fVarTypeUnderlyingIs then
-    .strArg (fun o s => if o.typematchOK s then none else some "parse type expr") true
+    .strArg (fun o s => if o.typematchOK s then none else some (.node, "parse type expr")) true .node
   else if op = fVarTypeConvertibleTo ∨ op = fVarTypeAssignableTo then
     .strArg (fun o s => match o.typeFromString s with
-      | 0 => none | 1 => some "parse type expr" | _ => some "can't convert into a type constraint yet") true
-  else if op = fVarTypeImplements then .strArg (fun o s => if o.ifaceOK s then none else some "can't resolve interface") true
+      | 0 => none | 1 => some (.arg, "parse type expr") | _ => some (.arg, "can't convert into a type constraint yet")) true .arg
+  else if op = fVarTypeImplements then .strArg (fun o s => if o.ifaceOK s then none else some (.arg, "can't resolve interface")) true .arg
   else if op = fVarTypeHasMethod then
     .strArg (fun o s => match o.funcRef s with
-      | 0 => none | 1 => some "func ref" | _ => some "can't resolve HasMethod() argument") true
+      | 0 => none | 1 => some (.arg, "func ref") | _ => some (.node, "can't resolve HasMethod() argument")) true .arg
   else if op = fVarPure ∨ op = fVarConst ∨ op = fVarObjectIsGlobal ∨ op = fVarObjectIsVariadicParam ∨
       op = fVarConstSlice ∨ op = fVarAddressable ∨ op = fVarComparable ∨ op = fFileImports then .varOnly
   else if op = fDeadcode then .noArgs
@@ -206,10 +218,10 @@ def argCheck (o : Oracles) : ArgCheck → String → Res (Option String)
 (the closures themselves are the subject of C02/C17) -/
 def leafFilter (o : Oracles) (e : FE) : LRes Unit :=
   match leafKind e.op with
-  | .strArg check needVar =>
-    lbind (stringArg0 e) fun s =>
-      match check o s with
-      | some msg => lerr e.line msg
+  | .strArg check needVar emptyAt =>
+    lbind (stringArg0 e emptyAt) fun ls =>
+      match check o ls.2 with
+      | some (w, msg) => lerr (errLine w e ls.1) msg
       | none => if needVar then (match asString e.value with | .panic p => .panic p | .ok _ => lok ()) else lok ()
   | .varOnly => (match asString e.value with | .panic p => .panic p | .ok _ => lok ())
   | .noArgs => lok ()
